@@ -183,6 +183,10 @@ def case_cazac(ctx, rng, idx):
     ctx.sample("cazac", {"size": size, "Nzc": N})
 
 
+WALSH = {2: [np.array([1, 1]), np.array([1, -1])],
+         4: [np.array(r) for r in ([1, 1, 1, 1], [1, -1, 1, -1], [1, 1, -1, -1], [1, -1, -1, 1])]}
+
+
 def make_ue(kind, root, n_cs, normalize, cover=None):
     if kind == "srs":
         return SRS.SrsUeSequence(root, n_cs, normalize=normalize)
@@ -270,7 +274,9 @@ def case_estimator(ctx, rng, idx):
     mult = 2 if variant == "srs-comb" else 1
     cover0 = None
     if variant == "dmrs-occ":
-        cover0 = np.array([1, 1]) if rng.random() < 0.5 else np.array([1, -1])
+        # Walsh rows of length 2 (LTE) or 4
+        walsh = WALSH[2 if rng.random() < 0.6 else 4]
+        cover0 = walsh[int(rng.integers(0, len(walsh)))]
     ue0 = make_ue(kind, root, n_cs0, normalize, cover0)
     seq0 = np.asarray(ue0.seq_array())
     h0 = num.randn_c(rng, Nr, L) * 10.0 ** rng.uniform(-2, 1)
@@ -278,7 +284,7 @@ def case_estimator(ctx, rng, idx):
     obs_idx = np.arange(0, mult * size, mult)          # comb: every other subcarrier
     users = [{"n_cs": n_cs0, "L": L, "cover": None if cover0 is None else cover0.tolist()}]
     if variant == "dmrs-occ":
-        Y = seq0[None, :, :] * H0[:, None, obs_idx]                    # Nr x 2 x size
+        Y = seq0[None, :, :] * H0[:, None, obs_idx]                    # Nr x Nc x size
     else:
         Y = seq0[None, :] * H0[:, obs_idx]                             # Nr x size
     if multi and size % nshift == 0:
@@ -307,7 +313,7 @@ def case_estimator(ctx, rng, idx):
             Hj = true_response(hfull, mult * size)
             cj = None
             if variant == "dmrs-occ":
-                cj = np.array([1, 1]) if rng.random() < 0.5 else np.array([1, -1])
+                cj = walsh[int(rng.integers(0, len(walsh)))]
             uej = make_ue(kind, root, n_cs, normalize, cj)
             sj = np.asarray(uej.seq_array())
             if variant == "dmrs-occ":
@@ -318,7 +324,8 @@ def case_estimator(ctx, rng, idx):
                           "cover": None if cj is None else cj.tolist()})
         if variant == "dmrs-occ" and rng.random() < 0.5:
             # a user on the SAME shift with the other cover code is removed by the OCC
-            cj = np.array([1, -1]) if cover0[1] == 1 else np.array([1, 1])
+            cj = [w for w in walsh if not np.array_equal(w, cover0)][
+                int(rng.integers(0, len(walsh) - 1))]
             hj = num.randn_c(rng, Nr, L) * 10.0 ** rng.uniform(-1, 1)
             Hj = true_response(hj, size)
             uej = make_ue(kind, root, n_cs0, normalize, cj)
